@@ -7,6 +7,7 @@ package main
 
 import (
 	"encoding/json"
+	"strconv"
 	"strings"
 
 	insaneJSON "github.com/ozontech/insane-json"
@@ -144,7 +145,9 @@ type evGen struct{ r *hx.Rng }
 
 func (g evGen) str() string {
 	r := g.r
-	switch r.Intn(12) {
+	switch r.Intn(13) {
+	case 12: // a token of the hash normaliser's built-in patterns, in one of its placements
+		return hx.Pick(r, tokenTexts(hx.Pick(r, strTokens)))
 	case 0, 1, 2:
 		return hx.Pick(r, strPlain)
 	case 3, 4:
@@ -200,7 +203,8 @@ func (g evGen) key() string {
 	r := g.r
 	switch r.Intn(10) {
 	case 0:
-		return hx.Pick(r, []string{"", "a.b", "a b", "k\"q", "\xff", "k\\", "ключ", "0", "1"})
+		// (the 600-byte key: the prefix loops of flatten / json_decode / decode append prefix + key to event.Buf)
+		return hx.Pick(r, []string{"", "a.b", "a b", "k\"q", "\xff", "k\\", "ключ", "0", "1", strings.Repeat("K", 600)})
 	case 1, 2, 3:
 		return hx.Pick(r, []string{"a", "b", "c", "d", "e"})
 	default:
@@ -294,7 +298,8 @@ func lenientText(s string, depth int) bool {
 		return false
 	}
 	if !json.Valid([]byte(s)) {
-		return true
+		// encoding/json gives up beyond depth 10000, which is no leniency of insane-json
+		return nestingDepth([]byte(s)) <= 9990
 	}
 	if depth == 0 {
 		return false
@@ -331,4 +336,153 @@ func k8sBad(text []byte) bool {
 		return false
 	}
 	return !root.IsObject() || !root.Dig("log").IsString()
+}
+
+// ---------------------------------------------------------------------------------------------
+// inputs that cross size / count thresholds hard-coded in the code under test
+
+// tokens the hash normaliser's built-in patterns look for (fixed-length ones: uuid 36, md5 32,
+// sha1 40, sha256 64 bytes) - none of the other pools has one inside the first 40 bytes
+var strTokens = []string{
+	"7c1811ed-e98f-4c9c-a9f9-58c757ff494f",                             // uuid
+	"7C1811ED-E98F-4C9C-A9F9-58C757FF494F",                             // uuid, upper case
+	"098f6bcd4621d373cade4e832627b4f6",                                 // md5
+	"a94a8fe5ccb19ba61c4c0873d391e987982fbbd3",                         // sha1
+	"9f86d081884c7d659a2feaa0c55ad015a3bf4f1b2b0b822cd15d6c15b0f00a08", // sha256
+	"9f86d081884c7d659a2feaa0c55ad015a3bf4f1b2b0b822cd15d6c15b0f00a0",  // 63 hex digits
+	"1.2.3.4", "255.255.255.255", "2001:db8::ff00:42:8329", "::1", "fe80::1%eth0",
+	"https://some.host.name/some/path?query=1&x=%20#frag", "ftp://u:p@h:21/", "wss://x",
+	"www.example.com", "a.b.ru", "user@example.com", "/var/log/app/app.log", "/x",
+	"2025-01-13T10:20:40.999999999Z", "2025-01-13 10:20:40", "10:20:40", "2025-01-13",
+	"2025-01-13 10:20:40.999999999 +0300 MSK m=+0.000123456", "1ms", "2h45m30.5s", "0x1F", "-1.5e-7", "12345678901234567890123",
+	"01:23:45:67:89:ab", "true", "null", "Mon, 02 Jan 2006 15:04:05 MST",
+}
+
+// tokenTexts: the token alone (the word-boundary test at both ends of the text), at the start, at
+// the end, glued to word characters on either side, and two tokens back to back
+func tokenTexts(tok string) []string {
+	return []string{tok, tok + " tail", "head " + tok, "x" + tok, tok + "x", "_" + tok + "_", "a " + tok + " b", tok + tok, tok + " " + tok,
+		"[" + tok + "]", "\"" + tok + "\"", tok + ".", "=" + tok}
+}
+
+// rep: one repeated part of an event text (printed as (count #unit) on the case line)
+type rep struct {
+	unit string
+	n    int
+}
+
+// evParts: an input event whose text is the concatenation of strings and rep parts
+func evParts(parts ...any) hx.Sx {
+	var ps []hx.Sx
+	size := 0
+	for _, p := range parts {
+		switch v := p.(type) {
+		case string:
+			ps = append(ps, hx.S(v))
+			size += len(v)
+		case rep:
+			ps = append(ps, hx.L(hx.I(v.n), hx.S(v.unit)))
+			size += v.n * len(v.unit)
+		}
+	}
+	return hx.L(hx.L(ps...), hx.I(size))
+}
+
+// withCap: the input event with the capacity its Buf arrives with (-1 = nil)
+func withCap(ev hx.Sx, bufCap int) hx.Sx {
+	it := hx.Items(ev)
+	return hx.L(it[0], it[1], hx.I(bufCap))
+}
+
+// nodeCount: how many slots of the decoder's node pool the document takes: one per value, one per
+// field name, and one more per object / array for its end marker
+func nodeCount(n *insaneJSON.Node) int {
+	c := 1
+	switch {
+	case n.IsObject():
+		c++
+		for _, f := range n.AsFields() {
+			c += 1 + nodeCount(f.AsFieldValue())
+		}
+	case n.IsArray():
+		c++
+		for _, x := range n.AsArray() {
+			c += nodeCount(x)
+		}
+	}
+	return c
+}
+
+func nodesOfText(text string) int {
+	root := insaneJSON.Spawn()
+	defer insaneJSON.Release(root)
+	if err := root.DecodeString(text); err != nil {
+		return -1
+	}
+	return nodeCount(root.Node)
+}
+
+// nodeDoc: an object with the given fields (raw JSON values) padded to EXACTLY n insane-json nodes;
+// nested = the padding goes into one object field instead of the root. "" when n is out of reach.
+func nodeDoc(fields [][2]string, n int, nested bool) string {
+	var parts []string
+	for _, f := range fields {
+		parts = append(parts, q(f[0])+":"+f[1])
+	}
+	base := nodesOfText("{" + strings.Join(parts, ",") + "}")
+	need := n - base
+	if nested {
+		need -= 3 // "pad":{} = field, object, end marker
+	}
+	if base < 0 || need < 0 || need == 1 {
+		return ""
+	}
+	var pad []string
+	if need%2 == 1 { // a field holding [] takes three slots, a scalar field two
+		pad = append(pad, `"q":[]`)
+		need -= 3
+	}
+	for i := 0; need > 0; i++ {
+		pad = append(pad, `"p`+itoa(i)+`":`+itoa(i))
+		need -= 2
+	}
+	if nested {
+		parts = append(parts, `"pad":{`+strings.Join(pad, ",")+`}`)
+	} else {
+		parts = append(parts, pad...)
+	}
+	return "{" + strings.Join(parts, ",") + "}"
+}
+
+func itoa(i int) string { return strconv.Itoa(i) }
+
+// objArray: a JSON array of n objects over the fields the holding / discarding actions look at
+func objArray(r *hx.Rng, n int) string {
+	els := make([]string, n)
+	for i := range els {
+		switch r.Intn(6) {
+		case 0:
+			els[i] = `{"log":` + q(hx.Pick(r, strMultiline)) + `,"service":"s` + itoa(r.Intn(3)) + `","level":"error"}`
+		case 1:
+			els[i] = `{"log":"a start","message":` + q(hx.Pick(r, strPlain)) + `,"level":` + q(hx.Pick(r, []string{"error", "warn", "info"})) + `}`
+		case 2:
+			els[i] = `{"log":"b cont","a":{"b":"s` + itoa(i) + `"},"service":"x","level":"l` + itoa(i%7) + `"}`
+		case 3:
+			els[i] = `{"message":"m` + itoa(i) + `","items":[{"x":1}],"time":"2021-06-22T16:24:27Z"}`
+		case 4:
+			els[i] = `{}`
+		default:
+			els[i] = `{"log":"panic: x","level":"v` + itoa(i) + `","service":"s","k` + itoa(i) + `":` + itoa(i) + `}`
+		}
+	}
+	return "[" + strings.Join(els, ",") + "]"
+}
+
+// wideObject: an object of n fields k0..k(n-1) (above insane-json's MapUseThreshold when n > 16)
+func wideObject(n int, val func(i int) string) string {
+	parts := make([]string, n)
+	for i := range parts {
+		parts[i] = `"k` + itoa(i) + `":` + val(i)
+	}
+	return "{" + strings.Join(parts, ",") + "}"
 }
